@@ -118,6 +118,9 @@ def gen_src(rng, avoid_real_plugins=True):
             'resv2': bnum(rng, 16), 'size': bnum(rng, 16), 'words': [bnum(rng, 32) for _ in range(8)], 'ascii': asc, 'callouts': callouts}
 
 
+PY_LITERALS = [b"{'fans': {0: 'ok'}}", b"{1: 'x', '1': 'y'}", b'[1, 2,]', b"{'a': None}", b'{"a": True}', b'(1, 2)', b"{'k': 'v'}"]
+
+
 def gen_payload(rng, kind='any'):
     n = rng.choice([1, 2, 3, 4, 15, 16, 17, 33, 255, 256, rng.randrange(1, 600)])
     if rng.random() < 0.02:
@@ -134,6 +137,8 @@ def gen_payload(rng, kind='any'):
                           {"k%d" % i: [i, str(i)] for i in range(rng.randrange(0, 12))}, [1, 2, "three"], "just a string", 17, None, {"k\":": "v\"x\": y", "nest": {"x": [1, {"y": None}]}},
                           {"é": "ü😀"}, {}, [], {"a": 1, "a": 2}])
         t = json.dumps(doc, ensure_ascii=rng.random() < 0.5).encode()
+        if rng.random() < 0.08:
+            return rng.choice(PY_LITERALS)      # what Python's repr() of a dict looks like: not JSON
         return rng.choice([t, t + b'\0' * rng.randrange(1, 5), b'  ' + t + b' \n', t + b' \0\0', t[:-1], b'{' + t])
     if k < 0.8:
         if rng.random() < 0.5:
@@ -149,6 +154,42 @@ def gen_payload(rng, kind='any'):
             t = ''.join(chars).encode()
         return rng.choice([t, t + b'\0' * rng.randrange(1, 5), b'\n' + t + b'\n', 'wörld "x": y\nzwei'.encode(), t + b'\n\n'])[:65000] or b'x'
     return bytes([rng.choice([0, 0x20, 0x41, 0xff])] * n)
+
+
+def forge_crc32(prefix, target):
+    """4 bytes to append to `prefix` so that zlib.crc32(prefix + them) == target (the CRC register is run backwards from the target)"""
+    import zlib
+    table = []
+    for i in range(256):
+        c = i
+        for _ in range(8):
+            c = (c >> 1) ^ 0xEDB88320 if c & 1 else c >> 1
+        table.append(c)
+    top = {table[i] >> 24: i for i in range(256)}
+    want = target ^ 0xFFFFFFFF
+    have = zlib.crc32(prefix) ^ 0xFFFFFFFF
+    idx = []
+    for _ in range(4):                     # table indices used by the last four steps, last first
+        i = top[want >> 24]
+        idx.append(i)
+        want = ((want ^ table[i]) << 8) & 0xFFFFFFFF
+    out = bytearray()
+    for i in reversed(idx):
+        b = (have ^ i) & 0xFF
+        out.append(b)
+        have = (have >> 8) ^ table[i]
+    res = bytes(out)
+    assert zlib.crc32(prefix + res) == target
+    return res
+
+
+def crc_twins(rng, n):
+    """two different byte strings of length n (>= 8) with the same CRC-32 (what a cache keyed by length + checksum cannot tell apart)"""
+    import zlib
+    a = bytes(rng.randrange(256) for _ in range(n))
+    pre = bytes(rng.randrange(256) for _ in range(n - 4))
+    b = pre + forge_crc32(pre, zlib.crc32(a))
+    return a, b
 
 
 def gen_section(rng, avoid_real_plugins=True):
